@@ -81,7 +81,7 @@ theorem applyP_view (l : Nat) (p : List (Nat × B)) : ∀ hw : Nat → Option B,
       · have : ¬ l = x.1 := fun hh => h hh.symm
         simp [h, this]
 
-theorem brightnessAt_done (f : Fade) (now : Nat) (b : B) (h : brightnessAt f now = (b, true)) : b = (f.tb, 255) := by
+theorem brightnessAt_done (f : Fade) (now m : Nat) (b : B) (h : brightnessAt f now m = (b, true)) : b = (f.tb, 255) := by
   unfold brightnessAt at h
   split at h
   · split at h
@@ -175,9 +175,9 @@ theorem compute_inv (s0 : BSt) (l0 : Nat) (r : BSt × CRes) (hd : D s0) (hh : H 
             · exact Or.inr (Or.inr (Or.inr (Or.inl (hsc l h))))
             · obtain ⟨b, t, h1, h2⟩ := h
               exact Or.inr (Or.inr (Or.inr (Or.inr ⟨b, t, by rw [hla l hl]; exact h1, by rw [hf]; exact h2⟩)))
-        have queuedH : ∀ (s' : BSt) (b : B), s'.acc = s.acc ++ [(x, b)] → s'.inflight = s.inflight → s'.hw = s.hw →
-            s'.last = upd s.last x (some (b, s.now)) → H s' := by
-          intro s' b ha hi hw hl l
+        have queuedH : ∀ (s' : BSt) (b : B) (tq : Nat), s'.acc = s.acc ++ [(x, b)] → s'.inflight = s.inflight → s'.hw = s.hw →
+            s'.last = upd s.last x (some (b, tq)) → H s' := by
+          intro s' b tq ha hi hw hl l
           unfold view
           rw [ha, hi, hw, hl, lastIn_append_single]
           by_cases hxl : x = l
@@ -185,13 +185,13 @@ theorem compute_inv (s0 : BSt) (l0 : Nat) (r : BSt × CRes) (hd : D s0) (hh : H 
           · have : ¬ l = x := fun h => hxl h.symm
             simp only [hxl, if_false, upd, this]
             exact hh' l
-        cases hb : brightnessAt (s.fade x) s.now with
+        cases hb : brightnessAt (s.fade x) s.now s.maxFade with
         | mk b done =>
           rw [hb] at hr
           simp only at hr
           cases done with
           | true =>
-            have hbt := brightnessAt_done _ _ _ hb
+            have hbt := brightnessAt_done _ _ _ _ hb
             simp only [if_true] at hr
             split at hr
             · rename_i b0 t0 hlast
@@ -205,16 +205,16 @@ theorem compute_inv (s0 : BSt) (l0 : Nat) (r : BSt × CRes) (hd : D s0) (hh : H 
               · simp only [Option.some.injEq] at hr
                 subst hr
                 refine ⟨other _ rfl rfl rfl rfl (fun l h => h) (fun l hl => by simp [upd, hl])
-                  (Or.inr ⟨b, s.now, by simp [upd], by rw [hbt]; rfl⟩), queuedH _ b rfl rfl rfl rfl⟩
+                  (Or.inr ⟨b, s.now + fdOf s x, by simp [upd], by rw [hbt]; rfl⟩), queuedH _ b _ rfl rfl rfl rfl⟩
             · simp only [Option.some.injEq] at hr
               subst hr
               refine ⟨other _ rfl rfl rfl rfl (fun l h => h) (fun l hl => by simp [upd, hl])
-                (Or.inr ⟨b, s.now, by simp [upd], by rw [hbt]; rfl⟩), queuedH _ b rfl rfl rfl rfl⟩
+                (Or.inr ⟨b, s.now + fdOf s x, by simp [upd], by rw [hbt]; rfl⟩), queuedH _ b _ rfl rfl rfl rfl⟩
           | false =>
             simp only [Bool.false_eq_true, if_false, Option.some.injEq] at hr
             subst hr
             refine ⟨other _ rfl rfl rfl rfl (fun l h => by simp only [List.map_append, List.mem_append]; exact Or.inl h)
-              (fun l hl => by simp [upd, hl]) (Or.inl (by simp)), queuedH _ b rfl rfl rfl rfl⟩
+              (fun l hl => by simp [upd, hl]) (Or.inl (by simp)), queuedH _ b _ rfl rfl rfl rfl⟩
 
 theorem flush_H (s s' : BSt) (h : H s) (hf : flush s = some s') : H s' := by
   unfold flush at hf
